@@ -32,6 +32,7 @@ static int a_mode; static long a_defer = -1; static unsigned long a_count;   /* 
 static int cur_port = -1;   /* srvq: source port of the datagram being processed */
 static uint8_t *v_pl; static size_t v_pllen;
 static char names[MAXRES + 2][8];
+static coap_resource_t *g_res[MAXRES]; static int g_nres;   /* asq `dr`: the ordinary resources in table order */
 
 static void o_putc(char **b, size_t *n, size_t *cap, int c) {
   if (*n + 2 > *cap) { *cap = (*cap + 64) * 2; *b = (char *)realloc(*b, *cap); }
@@ -147,7 +148,7 @@ static int split(char *s, char sep, char **f, int max) {
 static int setup(char **w, coap_context_t **pctx, coap_endpoint_t **pep) {
   coap_context_t *ctx;
   int bad = 0;
-  mask_bad = 0;
+  mask_bad = 0; g_nres = 0;
   sim_reset();
   sim_tx_logger = on_tx; sim_tx_hook = NULL;
   sim_log_events = 0; sim_log_enabled = 0;
@@ -203,6 +204,7 @@ static int setup(char **w, coap_context_t **pctx, coap_endpoint_t **pep) {
       if (atoi(f[3])) coap_resource_set_get_observable(r, 1);
       snprintf(names[i], sizeof names[i], "r%d", i); coap_resource_set_userdata(r, names[i]);
       coap_add_resource(ctx, r);
+      g_res[i] = r; g_nres = i + 1;
       free(pb);
     }
   }
@@ -336,6 +338,8 @@ bad:
  *                                          the I/O loop's prepare step (idle sessions)
  *   tr <k> | sd <k> <ticks> | fr <k>       coap_async_trigger / coap_async_set_delay / coap_free_async on the k-th entry of
  *                                          context->async_state
+ *   dr <k>                                 coap_delete_resource on the k-th ordinary resource of the table as it is now (the
+ *                                          resources behind it move up: handler names r<i> follow the current table)
  * A Confirmable response libcoap transmits is acknowledged by the peer at once (so nothing is retransmitted: C06).
  * Output per event, joined by ` ;; `:
  *   tx=… h=… a=<id:peer:delay:K:code:mid:tok:opts:payload>/…|- s=<peer:ref>/…|- w=<ticks>|-
@@ -412,7 +416,7 @@ static void stepa(char *line) {
     } else if (!strcmp(w[i], "io") && i + 2 < n) {
       if (!all_digits(w[i + 1]) || !ok_verdict(w[i + 2])) break;
       i += 3;
-    } else if ((!strcmp(w[i], "tr") || !strcmp(w[i], "fr")) && i + 1 < n) {
+    } else if ((!strcmp(w[i], "tr") || !strcmp(w[i], "fr") || !strcmp(w[i], "dr")) && i + 1 < n) {
       if (!all_digits(w[i + 1])) break;
       i += 2;
     } else if (!strcmp(w[i], "sd") && i + 2 < n) {
@@ -462,6 +466,14 @@ static void stepa(char *line) {
     } else if (!strcmp(w[i], "fr")) {
       coap_async_t *a = nth_async(ctx, atol(w[i + 1]));
       if (a) coap_free_async(a->session, a);
+      i += 2;
+    } else if (!strcmp(w[i], "dr")) {
+      long k = atol(w[i + 1]);
+      if (k < g_nres) {
+        coap_delete_resource(ctx, g_res[k]);
+        for (int j = (int)k; j + 1 < g_nres; j++) { g_res[j] = g_res[j + 1]; coap_resource_set_userdata(g_res[j], names[j]); }
+        g_nres--;
+      }
       i += 2;
     } else {
       coap_async_t *a = nth_async(ctx, atol(w[i + 1]));
